@@ -20,6 +20,8 @@ def alphabet(tier):
             ops.append(("simrel", 2, a, b, ab))  # max_time = current time + 2
         for due, rev in itertools.product((False, True), repeat=2):
             ops.append(("back", due, rev, ab))
+    ops.append(("simauto", (0, 2)))  # simulate(absence=[0,2], perform_auto_task_while_absence_time=True)
+    ops.append(("simauto", (1,)))
     ops.append(("init",))
     ops.append(("reverse",))
     ops.append(("simu", 2))  # simulate(unit_time=2): an option of simulate() like any other
@@ -51,6 +53,10 @@ def base_models():
             sp["workplaces"][0]["facilities"][0]["absence"] = [1]
             sp["workplaces"][0]["facilities"][1]["absence"] = [0, 2]
             out.append(sp)
+    out.append(F.two_team_workplace_spec())
+    # automatic task with a half-integer rate (remaining work crosses zero between steps) next to worked tasks
+    sp = F.with_teams({"tasks": [{"name": "T0", "work": 2.5, "auto": True}, {"name": "T1", "work": 1.5}, {"name": "T2", "work": 1.0}], "links": [[0, 2, "FS"], [1, 2, "FS"]]}, "MIX")
+    out.append(sp)
     # nested product, child first (FS) so that the run completes
     names = ["T0", "T1"]
     out.append({"tasks": [{"name": "T0", "work": 1.0, "nf": True}, {"name": "T1", "work": 2.0, "nf": True, "due": 5}], "links": [[0, 1, "FS"]],
@@ -121,6 +127,9 @@ def apply_op(m, op, bad):
             _, due, rev, ab = op
             holder["aligned_before"] = True
             p.backward_simulate(max_time=BIG, considering_due_time_of_tail_tasks=due, reverse_log_information=rev, absence_time_list=list(ab))
+        elif kind == "simauto":
+            holder["aligned_before"] = True
+            p.simulate(max_time=BIG, absence_time_list=list(op[1]), perform_auto_task_while_absence_time=True)
         elif kind == "simu":
             holder["aligned_before"] = False  # the index-equals-step comparison is meaningless here; the alignment invariant after the call decides
             p.simulate(max_time=BIG, unit_time=op[1], absence_time_list=[])
@@ -148,11 +157,46 @@ def replay_history(spec, hist):
     viol = []
     for k, op in enumerate(hist):
         bad = []
+        before = S.dump(m, live=False) if op[0] == "reverse" else None
         try:
             apply_op(m, op, bad)
         except Exception as e:
             viol.append(("C08:operation-raised:%s:%s" % (op[0], type(e).__name__), {"op": op, "k": k, "error": repr(e)}))
             return m, viol, True
+        if before is not None:
+            # reverse_log_information: entry k of every log becomes the former entry L-1-k, for every log alike
+            after = S.dump(m, live=False)
+            wrong = []
+            for grp in ("tasks", "workers", "facilities", "components", "teams", "workplaces"):
+                for oid, logs_ in before[grp].items():
+                    for lname, lst in logs_.items():
+                        if isinstance(lst, list) and after[grp][oid][lname] != lst[::-1]:
+                            wrong.append("%s %s %s" % (grp, oid, lname))
+            for lname in ("cost", "org_cost"):
+                if after[lname] != before[lname][::-1]:
+                    wrong.append("project " + lname)
+            if wrong:
+                kinds = sorted(set(w.split(" ")[0] + " " + w.split(" ")[-1] for w in wrong))
+                viol.append(("C08:reverse_log_information-did-not-reverse:%s" % ",".join(kinds)[:90], {"op": op, "k": k, "not_reversed": wrong[:6]}))
+        if op[0] == "back" and op[2]:
+            # a backward run with reverse_log_information=True must give the reverse of the same run without it
+            twin = S.build(spec)
+            try:
+                for o2 in hist[:k]:
+                    apply_op(twin, o2, [])
+                apply_op(twin, (op[0], op[1], False, op[3]), [])
+                a, b = S.dump(m, live=False), S.dump(twin, live=False)
+                wrong = []
+                for grp in ("tasks", "workers", "facilities", "components", "teams", "workplaces"):
+                    for oid, logs_ in a[grp].items():
+                        for lname, lst in logs_.items():
+                            if isinstance(lst, list) and lst != b[grp][oid][lname][::-1]:
+                                wrong.append("%s %s %s" % (grp, oid, lname))
+                if wrong:
+                    kinds = sorted(set(w.split(" ")[0] + " " + w.split(" ")[-1] for w in wrong))
+                    viol.append(("C08:backward-run-logs-not-reverse-of-unreversed-run:%s" % ",".join(kinds)[:90], {"op": op, "k": k, "differ": wrong[:6]}))
+            except Exception:
+                pass
         al = check_alignment(m)
         if al is not None:
             viol.append(("C08:logs-not-aligned-after:%s" % (op[0] if op[0] != "simu" else "simulate(unit_time=%d)" % op[1]), {"op": op, "k": k, "alignment": al}))
@@ -209,7 +253,7 @@ def run(tier, seed):
     col = engines.fanout(items, work, seed=seed, chunks_per_proc=4)
     meta = {
         "level": "model_checking",
-        "rule": "breadth-first search over operation histories up to depth %d on real projects (9 base models: FS chain, parallel with due times, automatic task, individually absent workers / facilities, facility+conveyor, "
+        "rule": "breadth-first search over operation histories up to depth %d on real projects (11 base models: two teams + workplace, fractional automatic task, FS chain, parallel with due times, automatic task, individually absent workers / facilities, facility+conveyor, "
         "shared component, nested product) over the alphabet simulate(full | max_time 0,1,2 | resume with each flag pair, absolute and relative max_time) x absence {[],[1]}, "
         "backward_simulate x due-time flag x reverse flag x absence, initialize(), reverse_log_information(); every history is replayed on fresh objects, states are de-duplicated on "
         "the complete dump; after every operation all per-step logs must have one common length equal to project.time, and at every 'recorded' phase of every inner simulate the "
